@@ -17,7 +17,10 @@ fn pool(quick: bool) -> Vec<RVal> {
     let mut v: Vec<RVal> = vec![RVal::Null, RVal::Bool(true), RVal::Bool(false)];
     let nums = gen::nums();
     if quick {
-        v.extend(nums.into_iter().step_by(3));
+        // every integer boundary (each is a distinct overflow edge), every third of the other numbers
+        let (ints, others): (Vec<RVal>, Vec<RVal>) = nums.into_iter().partition(|n| matches!(n, RVal::Int(_)));
+        v.extend(ints);
+        v.extend(others.into_iter().step_by(3));
     } else {
         v.extend(nums);
     }
@@ -29,7 +32,7 @@ fn pool(quick: bool) -> Vec<RVal> {
     v.push(rv::bs(b""));
     v.push(rv::bs(b"\xff\x00a"));
     v.push(RVal::Str(vec![0xff, 0xc3], false));
-    let arrs = ["[]", "[0]", "[1,2,3]", "[[0,\"a\"]]", "[{\"key\":\"a\",\"value\":1}]", "[1970,0,1,0,0,0]", "[2000,1,30,25,61,61.5,0,0]", "[\"a\",\"b\"]", "[[1,2],[3]]", "[null,null]", "[-1,256]", "[1.5,\"x\",[],{}]", "[[\"a\",1],[\"b\"]]"];
+    let arrs = ["[-9223372036854775808]", "[]", "[9223372036854775807, -9223372036854775808, 4294967296]", "[0]", "[1,2,3]", "[[0,\"a\"]]", "[{\"key\":\"a\",\"value\":1}]", "[1970,0,1,0,0,0]", "[2000,1,30,25,61,61.5,0,0]", "[\"a\",\"b\"]", "[[1,2],[3]]", "[null,null]", "[-1,256]", "[1.5,\"x\",[],{}]", "[[\"a\",1],[\"b\"]]"];
     for a in arrs.iter().step_by(if quick { 2 } else { 1 }) {
         v.push(crate::eval_const(a));
     }
@@ -76,7 +79,27 @@ fn small_only(name: &str, arity: usize) -> bool {
     matches!((name, arity), ("combinations", 1) | ("limit", 2) | ("range", 1) | ("range", 2) | ("range", 3) | ("repeat", 1) | ("flatten", 1) | ("jn", 2) | ("yn", 2))
 }
 
+/// syntax forms (operators, indexing, construction, binding) swept like natives: (program, arity)
+const SYNTAX: &[(&str, usize)] = &[
+    (". + $a1", 1), (". - $a1", 1), (". * $a1", 1), (". / $a1", 1), (". % $a1", 1), ("$a1 - .", 1), ("$a1 / .", 1), ("$a1 % .", 1), ("-.", 0), ("-$a1", 1),
+    ("$a1 + $a2", 2), ("$a1 - $a2", 2), ("$a1 * $a2", 2), ("$a1 / $a2", 2), ("$a1 % $a2", 2),
+    (". < $a1", 1), (". == $a1", 1), (". >= $a1", 1), ("[., $a1] | sort", 1), ("[., $a1, $a2] | unique", 2), (". // $a1", 1), (". and $a1", 1), ("$a1 or .", 1),
+    (".[$a1]", 1), (".[$a1:]", 1), (".[:$a1]", 1), (".[$a1:$a2]", 2), (".[$a1]?", 1), (".[$a1][$a2]", 2), ("$a1[.]", 1), ("$a1[.:]", 1), ("$a1[:.]", 1),
+    (".[$a1] = $a2", 2), (".[$a1:$a2] = $a3", 3), (".[$a1] |= empty", 1), (".[$a1:$a2] |= empty", 2), ("del(.[$a1])", 1), ("del(.[$a1:$a2])", 2), (".[$a1] += $a2", 2), (".[$a1] //= $a2", 2), ("del(.[$a1, $a2])", 2),
+    ("{($a1): $a2}", 2), ("{($a1): .}", 1), ("{a: $a1} + .", 1), ("{a: $a1} * .", 1), ("\"x\\($a1)\\(.)\"", 1), ("@base64 \"\\($a1)\"", 1), ("@sh \"\\($a1)\"", 1), ("@csv \"\\($a1)\"", 1), ("@json \"\\($a1)\"", 1), ("@uri \"\\($a1)\"", 1), ("@html \"\\($a1)\"", 1),
+    (". as [$x, $y] | [$x, $y]", 0), (". as {a: $x, $b} | [$x, $b]", 0), (". as {($a1): $x} | $x", 1), (". as [[$x]] | $x", 0), (". as {a: [$x]} | $x", 0),
+    ("if . then $a1 else $a2 end", 2), ("reduce .[]? as $x ($a1; . + $x)", 1), ("foreach .[]? as $x ($a1; . - $x; [., $x])", 1), ("[.[]?]", 0), ("[..]", 0), ("try error catch .", 0), ("try error($a1) catch .", 1), ("[limit(3; .[]?, $a1)]", 1), ("label $l | ., break $l", 0),
+    ("[.[]? | . % $a1]", 1), ("[.[]? | -.]", 0), ("[$a1, .] | min, max", 1), ("$__prog_name?", 0),
+];
+
 fn program_for(name: &str, arity: usize, mode: usize) -> String {
+    if let Some(prog) = name.strip_prefix("syntax: ") {
+        return match mode {
+            0 => prog.to_string(),
+            1 => format!("path({prog})"),
+            _ => format!("({prog}) |= ."),
+        };
+    }
     let args = if arity == 0 { String::new() } else { format!("({})", (1..=arity).map(|i| format!("$a{i}")).collect::<Vec<_>>().join("; ")) };
     let call = format!("{name}{args}");
     match mode {
@@ -101,6 +124,14 @@ fn filters() -> Vec<Filt> {
         }
         for mode in 0..3 {
             v.push(Filt { name: name.clone(), arity, mode });
+        }
+    }
+    for (prog, arity) in SYNTAX {
+        if *prog == "$__prog_name?" {
+            continue;
+        }
+        for mode in 0..3 {
+            v.push(Filt { name: format!("syntax: {prog}"), arity: *arity, mode });
         }
     }
     v
@@ -247,6 +278,8 @@ struct Space {
 struct Ctx {
     quick: bool,
     pool: Vec<RVal>,
+    /// pool entries whose integers are stored as big integers (as arithmetic on big integers leaves them)
+    bigs: Vec<bool>,
     filts: Vec<Filt>,
     docprogs: Vec<(String, &'static [&'static str], usize, jq::F)>,
     cache: std::cell::RefCell<Option<(usize, Result<jq::F, String>)>>,
@@ -266,7 +299,13 @@ impl Ctx {
             ("@base64d", DOC_JSON, l(2, 3)),
         ];
         let docprogs = docs.into_iter().map(|(p, a, n)| (p.to_string(), a, n, jq::compile_full(&format!("[limit(8; {p})]"), &[]).unwrap())).collect();
-        Ctx { quick, pool: pool(quick), filts: filters(), docprogs, cache: Default::default() }
+        let mut pool = pool(quick);
+        let mut bigs = vec![false; pool.len()];
+        for v in [rv::int(0), rv::int(1), rv::int(-1), rv::int(256), RVal::Arr(vec![rv::int(0), rv::int(97)]), RVal::Obj(vec![(rv::s("a"), rv::int(0))])] {
+            pool.push(v);
+            bigs.push(true);
+        }
+        Ctx { quick, pool, bigs, filts: filters(), docprogs, cache: Default::default() }
     }
 
     fn spaces(&self) -> Vec<Space> {
@@ -277,6 +316,23 @@ impl Ctx {
         let docs: u64 = self.docprogs.iter().map(|(_, a, n, _)| count_strings(a, *n)).sum();
         v.push(Space { name: "documents", total: docs });
         v
+    }
+
+    fn val(&self, i: usize) -> Val {
+        if self.bigs[i] {
+            jq::to_val_big(&self.pool[i])
+        } else {
+            jq::to_val(&self.pool[i])
+        }
+    }
+
+    fn show(&self, i: usize) -> String {
+        let s: String = self.pool[i].to_string().chars().take(200).collect();
+        if self.bigs[i] {
+            format!("{s} (integers stored as big integers)")
+        } else {
+            s
+        }
     }
 
     /// number of argument positions (besides the input) that range over the whole pool;
@@ -337,6 +393,15 @@ impl Ctx {
                     Err(e) if e.starts_with("PANIC") => return Err(e.clone()),
                     Err(_) => return Ok(9), // does not compile in this position (e.g. no path support): fine
                 };
+                if f.name.starts_with("syntax: ") && f.name.contains('*') {
+                    // string repetition: time and memory proportional to the count are resources, not crashes
+                    let vals: Vec<&RVal> = sel.iter().map(|s| &self.pool[*s]).collect();
+                    let has_str = vals.iter().any(|v| matches!(v, RVal::Str(..)));
+                    let big_num = vals.iter().any(|v| v.f64().map_or(false, |x| x.abs() > 1000.0) || matches!(v, RVal::Int(i) if num_traits::Signed::abs(i) > num_bigint::BigInt::from(1000)));
+                    if has_str && big_num {
+                        return Ok(8);
+                    }
+                }
                 let mut args: Vec<Val> = vec![];
                 for (k, s) in sel[1..].iter().enumerate() {
                     let v = &self.pool[*s];
@@ -359,9 +424,9 @@ impl Ctx {
                         }
                     }
                     let _ = k;
-                    args.push(jq::to_val(v));
+                    args.push(self.val(*s));
                 }
-                let input = jq::to_val(&self.pool[sel[0]]);
+                let input = self.val(sel[0]);
                 let t = jq::run_trace(prog, input, args, vec![], 16);
                 match t.last() {
                     Some(jq::Ev::Panic(p)) => Err(p.clone()),
@@ -418,7 +483,7 @@ impl Ctx {
             "natives" => {
                 let (fi, sel) = self.native_case(idx);
                 let f = &self.filts[fi];
-                json!({"program": program_for(&f.name, f.arity, f.mode), "input": self.pool[sel[0]].to_string().chars().take(200).collect::<String>(), "arguments": sel[1..].iter().map(|s| self.pool[*s].to_string().chars().take(200).collect::<String>()).collect::<Vec<_>>()})
+                json!({"program": program_for(&f.name, f.arity, f.mode), "input": self.show(sel[0]), "arguments": sel[1..].iter().map(|s| self.show(*s)).collect::<Vec<_>>()})
             }
             "filter-text" => json!({"filter_text": nth_string(TOKENS, idx, if self.quick { 3 } else { 4 })}),
             "cbor-bytes" => json!({"cbor_bytes_case": idx}),
